@@ -10,6 +10,7 @@ import (
 	"net/http/httptest"
 	"os"
 	"path/filepath"
+	"runtime"
 	"strings"
 	"sync/atomic"
 	"time"
@@ -216,8 +217,20 @@ func (s *Server) Do(req *http.Request) (*http.Response, error) {
 		req.SetBasicAuth(authUser, authPass)
 	}
 	s.Requests++
+	// diagnostic only: a raw request that takes more than 20 s gets one goroutine dump on stderr (shard log)
+	t := time.AfterFunc(20*time.Second, func() {
+		if atomic.AddInt32(&stallDumps, 1) > 2 {
+			return
+		}
+		buf := make([]byte, 4<<20)
+		buf = buf[:runtime.Stack(buf, true)]
+		fmt.Fprintf(os.Stderr, "C18-STALL: %s %s has been waiting for 20s; goroutines:\n%s\n", req.Method, req.URL.Path, buf)
+	})
+	defer t.Stop()
 	return s.HC.Do(req)
 }
+
+var stallDumps int32
 
 // quiesce waits until the sync-to-index handler reports nothing left to copy,
 // so that closing the index below cannot race with a background copy.
